@@ -3,6 +3,7 @@ package props
 
 import (
 	"fmt"
+	"math/big"
 	"os"
 
 	ike "github.com/free5gc/ike"
@@ -148,3 +149,5 @@ func panicData(p *core.Panic, extra M) M {
 }
 
 func msgJSON(m *abs.Msg) interface{} { return m.Canon() }
+
+func bigFromInt(v int64) *big.Int { return big.NewInt(v) }
